@@ -390,6 +390,7 @@ Proof.
   intros a b n r Ha Hb Hle.
   unfold q_permutation.
   rewrite (q_factorial_repr a _ Ha). cbn [bind].
+  destruct (apply_uint_op_repr unit b _ (fun _ => Ok tt) Hb) as [u [Eu _]]. rewrite Eu. cbn [bind].
   assert (Hs : rat_repr (rat_add a (rat_neg b)) (N.of_nat (n - r))).
   { rewrite Nat2N.inj_sub. apply rat_sub_repr; try assumption. lia. }
   rewrite (q_factorial_repr _ _ Hs). cbn [bind].
@@ -557,9 +558,19 @@ Proof.
 Qed.
 
 Lemma q_permutation_domain : forall a b, rat_wf a = true -> rat_wf b = true ->
-  ~ denotes_nat a -> is_err (q_permutation a b).
+  ~ denotes_nat a \/ ~ denotes_nat b -> is_err (q_permutation a b).
 Proof.
-  intros a b Wa Wb Hbad. unfold q_permutation. apply bind_err, q_factorial_domain; assumption.
+  intros a b Wa Wb [Hbad|Hbad]; unfold q_permutation.
+  - apply bind_err, q_factorial_domain; assumption.
+  - destruct (q_factorial a) as [x|e|k] eqn:E; cbn [bind]; [|eexists; reflexivity|].
+    + apply bind_err, apply_uint_op_domain; assumption.
+    + exfalso. exact (q_factorial_no_panic a Wa k E).
+Qed.
+
+Lemma q_permutation_old_domain : forall a b, rat_wf a = true -> rat_wf b = true ->
+  ~ denotes_nat a -> is_err (q_permutation_old a b).
+Proof.
+  intros a b Wa Wb Hbad. unfold q_permutation_old. apply bind_err, q_factorial_domain; assumption.
 Qed.
 
 (* r > n: n - r is negative, its factorial is out of range *)
@@ -644,6 +655,7 @@ Proof.
   destruct (rat_sub_negative a b n r Ha Hb Hlt) as [Wd Hd].
   unfold q_combination, q_permutation.
   rewrite (q_factorial_repr a _ Ha), (q_factorial_repr b _ Hb). cbn [bind].
+  destruct (apply_uint_op_repr unit b _ (fun _ => Ok tt) Hb) as [u [Eu _]]. rewrite Eu. cbn [bind].
   split; apply bind_err, q_factorial_domain; assumption.
 Qed.
 
@@ -801,17 +813,17 @@ Proof.
 Qed.
 
 Lemma known_npr_of_negative_integer : forall b, rat_wf b = true ->
-  N.divide (dval b) (nval b) -> rneg b = true -> nval b <> 0 -> known_C10_npr_negative_r b = true.
+  N.divide (dval b) (nval b) -> rneg b = true -> nval b <> 0 -> known_C10_npr_negative_r_old b = true.
 Proof.
-  intros b Wb Hdiv Hneg Hnz. unfold known_C10_npr_negative_r.
+  intros b Wb Hdiv Hneg Hnz. unfold known_C10_npr_negative_r_old.
   destruct (simplify_ok b Wb) as [s [Es [Hs [Hv [Hd Hiff]]]]]. rewrite Es.
   apply Hiff in Hdiv. rewrite Hdiv, Hs, Hneg. change (1 =? 1) with true. cbn [andb].
   apply negb_true_iff, N.eqb_neq. intro H0. rewrite H0, Hdiv in Hv.
   apply rat_wf_parts in Wb. lia.
 Qed.
 
-Lemma npr_domain_except_known_lemma : forall a b, rat_wf a = true -> rat_wf b = true ->
-  ~ denotes_nat b -> known_C10_npr_negative_r b = false -> is_err (q_permutation a b).
+Lemma npr_old_domain_except_known_lemma : forall a b, rat_wf a = true -> rat_wf b = true ->
+  ~ denotes_nat b -> known_C10_npr_negative_r_old b = false -> is_err (q_permutation_old a b).
 Proof.
   intros a b Wa Wb Hbad Hk.
   (* b is not integral: otherwise it is a negative integer, which is the known class *)
@@ -821,7 +833,7 @@ Proof.
       + apply Hbad. split; [assumption|right; assumption].
       + rewrite (known_npr_of_negative_integer b Wb Hdiv Eb E0) in Hk. discriminate.
     - apply Hbad. split; [assumption|left; assumption]. }
-  unfold q_permutation.
+  unfold q_permutation_old.
   destruct (q_factorial a) as [x|e|k] eqn:Ef; cbn [bind]; [|eexists; reflexivity|exfalso; exact (q_factorial_no_panic a Wa k Ef)].
   (* a is a natural number *)
   assert (Ha : N.divide (dval a) (nval a)).
@@ -834,8 +846,8 @@ Proof.
   - intros [Hdiv _]. apply Hfrac. exact (sub_integral a b Wa Wb Ha Hdiv).
 Qed.
 
-Lemma npr_domain_refuted_lemma : exists a b q, rat_wf a = true /\ rat_wf b = true /\
-  ~ denotes_nat b /\ q_permutation a b = Ok q.
+Lemma npr_old_domain_refuted_lemma : exists a b q, rat_wf a = true /\ rat_wf b = true /\
+  ~ denotes_nat b /\ q_permutation_old a b = Ok q.
 Proof.
   exists (mkrat false (Small 5) (Small 1)), (mkrat true (Small 1) (Small 1)).
   eexists. split; [reflexivity|]. split; [reflexivity|]. split.
@@ -852,7 +864,7 @@ Lemma domain_errors_lemma : forall q, rat_wf q = true -> ~ denotes_nat q ->
   (forall b, rat_wf b = true ->
      is_err (q_modulo q b) /\ is_err (q_modulo b q) /\
      is_err (q_combination q b) /\ is_err (q_combination b q) /\
-     is_err (q_permutation q b)).
+     is_err (q_permutation q b) /\ is_err (q_permutation b q)).
 Proof.
   intros q Wq Hbad. repeat split.
   - apply q_factorial_domain; assumption.
@@ -864,6 +876,7 @@ Proof.
   - apply q_modulo_domain; auto.
   - apply q_combination_domain; auto.
   - apply q_combination_domain; auto.
+  - apply q_permutation_domain; auto.
   - apply q_permutation_domain; auto.
 Qed.
 
